@@ -1,12 +1,13 @@
 (* C05 - produced messages are valid Cap'n Proto.  Statements only.
-   Proved: the allocation half of heap_inv (fresh, zeroed, aligned, inside len <= cap, pairwise
-   disjoint), its preservation (segments stay word aligned with len <= cap and only grow)
-   by every pointer-writing operation incl. deep copies, and that every pointer word stored by
-   the placement switch resolves to its target with well-formed landing pads.
-   Not proved (checked by running the extracted [valid_message] on the real bytes of every
-   generated program): that all reachable builder states satisfy [valid_message = VOk]. *)
+   This file: the allocation half (fresh, zeroed, aligned, inside len <= cap, pairwise
+   disjoint), its preservation (segments stay word aligned with len <= cap and only grow) by
+   every pointer-writing operation incl. deep copies, pointer resolution of the placement
+   switch, and the handle-pool invariant over all op lists.  The headline - every reachable
+   builder state satisfies the table invariant, hence [valid_message = VOk] - is in
+   Properties_C05_heap.v (C05_heap_inv_tables, C05_heap_inv_sublang). *)
 From CV Require Import Core.Builder Core.ReaderFacts Core.ArithFacts Core.BuilderFacts Core.AllocProofs
   Core.WritePtrProofs Core.HeapProofs Core.BuildOps Core.BuildValid Core.BuildExamples Core.BuildInv.
+From CV Require Core.HeapMarshal.
 Open Scope Z_scope.
 
 Theorem C05_alloc_zeroed_aligned_in_cap : forall m sid sz m' sid' addr,
@@ -98,11 +99,14 @@ Print Assumptions C05_step_invariant.
 
 (* non-vacuity: the example program is well formed *)
 Theorem C05_example_op_wf : Forall op_wf ex_prog /\ arena_spec_wf (ArRaw [32; 8]).
-Proof. split; [repeat constructor; cbn; lia|repeat constructor; lia]. Qed.
+Proof. exact HeapMarshal.ex_prog_op_wf. Qed.
+Print Assumptions C05_example_op_wf.
 
 (* the strict validity predicate accepts the example messages (far and double-far) and
    rejects an out-of-bounds pointer *)
 Theorem C05_example_valid : valid_message (last_dump ex_far) = VOk /\ valid_message (last_dump ex_dfar) = VOk.
-Proof. split; [apply ex_far_pointer|apply ex_double_far_pointer]. Qed.
+Proof. exact ex_both_valid. Qed.
+Print Assumptions C05_example_valid.
 Theorem C05_example_invalid : valid_message [[0; 0; 0; 0; 1; 0; 0; 0]] = VBad 1.
 Proof. exact ex_invalid. Qed.
+Print Assumptions C05_example_invalid.
